@@ -423,6 +423,33 @@ func runC07(ctx *core.Ctx) {
 	run("random-policies", func(cs *core.Case) []spec.Op { return spec.RandomOps(cs.R, opts) }, nPol)
 	shipped := [][]spec.Op{{{K: spec.KUGC}}, spec.CmdUGCOps(), spec.CmdHTMLEmailOps(), policyFamilies()["foreign"], policyFamilies()["rawtext"], policyFamilies()["pattern-everything"], policyFamilies()["comments-spaces"]}
 	run("fixed-policies", func(cs *core.Case) []spec.Op { return shipped[cs.Index%len(shipped)] }, ctx.N(70, 700))
+	// well-known valid CSS values under default handlers are conforming content too
+	wk := make([]string, 0, len(gen.WellKnownCSS))
+	for p := range gen.WellKnownCSS {
+		wk = append(wk, p)
+	}
+	sort.Strings(wk)
+	ctx.Run("well-known-css", len(wk)*3, func(cs *core.Case) {
+		prop := wk[cs.Index/3]
+		op := spec.Op{K: spec.KAllowStyles, Attrs: []string{prop}, Matcher: "default", Scope: []string{"global", "els", "match"}[cs.Index%3], Names: []string{"span"}, ElRe: `^sp`}
+		env := NewEnv([]spec.Op{{K: spec.KNew}, {K: spec.KAllowElements, Names: []string{"span", "b"}}, op})
+		vals := gen.WellKnownCSS[prop]
+		for i, v := range vals {
+			doc := `<span style="` + gen.CanonEscape(prop+": "+v) + `">x</span>`
+			if i+1 < len(vals) { // two declarations, order kept
+				doc += `<b>y</b><span style="` + gen.CanonEscape(prop+": "+v+"; "+prop+": "+vals[i+1]) + `">z</span>`
+			}
+			out := SanitizeVia(env.Pol, doc, i)
+			cs.Eval()
+			cs.Count("well_known_css_documents", 1)
+			if out != doc {
+				cs.Violate("C07:changed:well-known-css-value:"+prop, fmt.Sprintf("a conforming document was altered: %q is a valid value of %q, which the policy allowlists with its default handler; input=%q output=%q", v, prop, doc, out),
+					map[string]interface{}{"policy": spec.Describe(env.Ops), "ops": env.Ops, "input": core.Show(doc), "output": core.Show(out)})
+			}
+			cs.Nontrivial(core.Hash("wkcss", prop, v, fmt.Sprint(cs.Index%3)))
+		}
+	})
+	ctx.Floor("well_known_css_documents", 500)
 	ctx.MinNontrivial(int64(ctx.N(10000, 200000)))
 	for _, k := range []string{"element:explicit", "element:pattern", "patterned:element", "patterned:global", "patterned:pattern", "unpatterned:element", "url:element", "overlapping-rules", "value-accepted-by-exactly-one-rule", "data-attribute", "style:default", "style:re", "style:enum", "style:handler", "style-scope:element", "style-scope:pattern", "style-scope:global-or-pattern"} {
 		ctx.Floor("rule_coverage:"+k, 3)
